@@ -50,7 +50,7 @@ def _manager_scan(rep: C.Report, tier: str):
 def search(rep: C.Report, tier: str, broken):
     import models
     r = C.rng("C05")
-    fams = HC.eos_families(tier)
+    fams = HC.eos_families(tier, negative_eps=True)
     # add template points designed to hit the sentinels
     fams += [("template-weak:alpha small", models.BagEOS(ap=3.0, am=2.97, eps=0.002, Tn=1.0)),
              ("template-strong", models.BagEOS(ap=3.0, am=1.2, eps=0.8, Tn=1.0))]
